@@ -78,7 +78,20 @@ func genCase(t *rapid.T) Case {
 	ns := rapid.IntRange(1, 3).Draw(t, "nschemas")
 	var docs []map[string]any
 	for i := 0; i < ns; i++ {
-		d := gen.Schema(t, gen.SchemaOpts{MaxDepth: 3, Formats: reg.Names, NoRef: true})
+		d := gen.Schema(t, gen.SchemaOpts{MaxDepth: 3, Formats: reg.Names, NoRef: true, Defaults: rapid.Bool().Draw(t, "defaults"), ObjectBias: rapid.Bool().Draw(t, "objbias")})
+		if i == 0 && rapid.Bool().Draw(t, "rootobject") {
+			// the state a long-lived validator keeps for the root of its schema is what goroutines share: a root object
+			// with required members, defaults, a pattern and a closed set of names, validated with members missing
+			d = map[string]any{"type": "object",
+				"properties": map[string]any{
+					"a": map[string]any{"type": "string", "default": "dflt1"},
+					"b": map[string]any{"type": "integer", "default": gen.Number(100), "maximum": gen.Number(200)},
+					"c": d,
+				},
+				"patternProperties":    map[string]any{"^x": map[string]any{"type": "boolean"}},
+				"additionalProperties": rapid.Bool().Draw(t, "rootopen"),
+				"required":             []any{"a", "b"}}
+		}
 		docs = append(docs, d)
 		c.Schemas = append(c.Schemas, gen.Text(d))
 	}
